@@ -17,17 +17,28 @@ def run_impl_case(case):
     bad = []
     if isinstance(case, list) and case[0] == 'dump':
         v = decode(case[1])
+        # the scalar alone and inside block / flow sequences and mappings (value and key position): the style the emitter may
+        # use differs per context (a ':' or ',' is an indicator only inside flow collections), the value read back must not
+        WRAPS = [('root', lambda x: x, {}), ('block item', lambda x: [x, [x]], dict(default_flow_style=False)), ('flow item', lambda x: [x, x], dict(default_flow_style=True)),
+                 ('leaf-flow value', lambda x: {'k': x, 'm': {'n': x}}, {}), ('flow value', lambda x: {'k': x}, dict(default_flow_style=True)),
+                 ('flow key', lambda x: {x: 1}, dict(default_flow_style=True)), ('block key', lambda x: {x: [1]}, dict(default_flow_style=False))]
         for D, L in ((yaml.SafeDumper, yaml.SafeLoader), (yaml.CSafeDumper, yaml.CSafeLoader), (yaml.SafeDumper, yaml.CSafeLoader)):
-            try:
-                text = yaml.dump(v, Dumper=D)
-            except Exception as e:
-                bad.append(dict(kind='dump_raises', what='safe_dump of a safe-universe scalar raised %s' % type(e).__name__, exc=type(e).__name__, dumper=D.__name__)); continue
-            try:
-                back = yaml.load(text, Loader=L)
-            except Exception as e:
-                bad.append(dict(kind='dump_unreadable', what='a dumped scalar is not read back (%s)' % type(e).__name__, exc=type(e).__name__, text=text, dumper=D.__name__, loader=L.__name__)); continue
-            if show(back) != show(v) and not (isinstance(v, datetime.datetime) and isinstance(back, datetime.datetime) and v == back and (v.utcoffset() == back.utcoffset())):
-                bad.append(dict(kind='dump_changes_value', what='a dumped scalar reads back as a different value', text=text, got=show(back)[:100], dumper=D.__name__, loader=L.__name__))
+            for wname, wrap, opts in WRAPS:
+                try: w = wrap(v)
+                except TypeError: continue
+                if v != v and wname.endswith('key'): continue                     # nan keys are compared by identity
+                try:
+                    text = yaml.dump(w, Dumper=D, **opts)
+                except Exception as e:
+                    bad.append(dict(kind='dump_raises', what='safe_dump of a safe-universe scalar (%s) raised %s' % (wname, type(e).__name__), exc=type(e).__name__, dumper=D.__name__)); break
+                try:
+                    back = yaml.load(text, Loader=L)
+                except Exception as e:
+                    bad.append(dict(kind='dump_unreadable', what='a dumped scalar (%s) is not read back (%s)' % (wname, type(e).__name__), exc=type(e).__name__, text=text, dumper=D.__name__, loader=L.__name__)); break
+                same = show(back, ident=False) == show(w, ident=False)
+                if not same and wname == 'root' and isinstance(v, datetime.datetime) and isinstance(back, datetime.datetime) and v == back and (v.utcoffset() == back.utcoffset()): same = True
+                if not same:
+                    bad.append(dict(kind='dump_changes_value', what='a dumped scalar (%s) reads back as a different value' % wname, text=text, got=show(back, ident=False)[:100], dumper=D.__name__, loader=L.__name__)); break
         return dict(bad=bad)
     s = case
     exp = spec11.spec_tag(s)
@@ -73,14 +84,15 @@ def run_impl_case(case):
                 pass
     # dump side: a str that looks like another type is written so that it reads back as the same str
     for D in (yaml.SafeDumper, yaml.CSafeDumper):
-        try:
-            text = yaml.dump([s], Dumper=D)
-            back = yaml.load(text, Loader=yaml.SafeLoader)
-            if back != [s] or type(back[0]) is not str:
-                bad.append(dict(kind='lookalike_not_quoted', what='str %r dumps to %r which reads back as %r' % (s, text, back), dumper=D.__name__))
-        except Exception as e:
-            bad.append(dict(kind='lookalike_dump_fails', what='dump/load of a str raised %s' % type(e).__name__, exc=type(e).__name__, dumper=D.__name__))
+        for w, opts in (([s], {}), ([s, s], dict(default_flow_style=True)), ({'k': s}, dict(default_flow_style=True)), ({s: 1}, {}), ({s: 1}, dict(default_flow_style=True))):
+            try:
+                text = yaml.dump(w, Dumper=D, **opts)
+                back = yaml.load(text, Loader=yaml.SafeLoader)
+                if back != w or any(type(x) is not str for x in (back if isinstance(back, list) else list(back) + [v for v in back.values() if not isinstance(v, int)])):
+                    bad.append(dict(kind='lookalike_not_quoted', what='str %r dumps to %r which reads back as %r' % (s, text, back), dumper=D.__name__)); break
+            except Exception as e:
+                bad.append(dict(kind='lookalike_dump_fails', what='dump/load of a str raised %s' % type(e).__name__, exc=type(e).__name__, dumper=D.__name__)); break
     return dict(bad=bad)
 
 if __name__ == '__main__' and '--worker' in sys.argv:
-    worker_main(run_impl_case)
+    worker_main(run_impl_case, dict_results=True)
